@@ -112,6 +112,12 @@ func (C11) Generate(r *rand.Rand, tier string, idx int) *drv.Scenario {
 		}
 	}
 	sc.Steps = steps
+	for i, st := range steps {
+		if st.Op == "par" {
+			sc.Fixed = i
+			break
+		}
+	}
 	return sc
 }
 
@@ -187,6 +193,10 @@ func (c C11) Execute(sc *drv.Scenario, w *drv.World) (*drv.Violation, error) {
 	inited := map[string]bool{}
 	clientID := map[string]int{"c0": 0, "c1": 1, "c2": 2, "c3": 3, "c4": 4}
 	addOp := func(in kvIn, r proto.Resp) {
+		if !inited[in.Key] || (r.Status != 200 && r.Status != 404 && in.Op == "get") {
+			w.Stats.Probe("kv-op-outside-model")
+			return
+		}
 		hist = append(hist, porcupine.Operation{ClientId: clientID[r.Client], Input: in, Call: int64(r.Invoke), Output: kvOut{r.Status, string(r.Body)}, Return: int64(r.Return)})
 		histDesc = append(histDesc, fmt.Sprintf("[%d,%d] %s %s(%s,%s) -> %d %s", r.Invoke, r.Return, r.Client, in.Op, in.Key, in.Val, r.Status, trunc(r.Body)))
 	}
